@@ -149,4 +149,7 @@ GhostFromFile(gh, b) ==
   IN [gh EXCEPT !.recs = [j \in 1..Len(idx) |-> LET r == ParseLine(ls[idx[j]]) IN
                              [o |-> r.o, m |-> r.m, h |-> r.h, s |-> r.s, t |-> r.t, end |-> es[idx[j]], alive |-> TRUE]],
                 !.hist = @ \cup {<<ParseLine(ls[idx[j]]).o, ParseLine(ls[idx[j]]).m, ParseLine(ls[idx[j]]).h>> : j \in 1..Len(idx)}]
+\* Which log paths recompaction may forget (property text: it "keeps the latest record of every output that is still in the
+\* manifest or on disk"): decided in the real binary by NinjaMain::IsPathDead, checked there by lib/checks.py _deadpath_conformance.
+DeadPath(inManifest, onDisk) == ~inManifest /\ ~onDisk
 =============================================================================
